@@ -22,7 +22,7 @@ def run_history(ctx):
     g = ctx.gen
     import pristine
     clean = pristine.Client()    # evaluates one model in a process where nothing was analysed before
-    kinds = ("mandatory", "optional", "alternative", "or", "mutex", "card", "nn")
+    kinds = ("mandatory", "optional", "alternative", "or", "mutex", "card", "nn", "star")
     for i in range(60 if ctx.tier == "quick" else 800):
         shared = suite_o.PersistentOps()
         shared_metrics = FMMetrics()
@@ -172,7 +172,7 @@ def run_genrandom(ctx):
         # some features already carry the attribute
         for f in spec.spec_features(m["root"]):
             if g.rng.random() < 0.25:
-                f["attrs"].append(spec.A(name, default="preset"))
+                f["attrs"].append(spec.A(name, default=g.rng.choice(["preset", None, 0, False, ""])))
             if g.rng.random() < 0.2:
                 f["attrs"].append(spec.A("other", default=7))
         fm = spec.build_fm(m)
